@@ -43,7 +43,7 @@ CHECKS["C05"] = dict(
 CHECKS["C09"] = dict(
     category="proof",
     text="Integrated Wiener priors: cholesky_hilbert, system_matrices_1d_iwp, preconditioner_taylor and transition() of the three factorisations (priors built by the real constructors inside the trace) are verified exactly: after removing the preconditioner the transition is (exp(hN) (x) I, 0, sigma^2 base^2 (x) exact Gramian) for all h>0, scales; transitions over h1 then h2 compose to h1+h2.",
-    note="orders q are enumerated (quick q<=3, thorough q<=10), d<=2; sqrt(odd) are algebraic atoms, qr_r is a kernel axiom; exponential / Ornstein-Uhlenbeck / Matern priors and the Pade-Legendre tables are NOT yet under contract in this check (see DESIGN.md); 'working precision' of truncated approximations is not decidable in real arithmetic",
+    note="orders q are enumerated (quick q<=3, thorough q<=10), d<=2; sqrt(odd) are algebraic atoms, qr_r is a kernel axiom. Exponential / OU / Matern priors (dense): transition() with the prior built by the real constructor is verified to be (EXPM(hA), 0, sigma^2 GRAMQ(hA, h B B^T)) with the documented companion drift and B = e_q (x) diag(base), where EXPM / GRAMQ are uninterpreted and exp_gram_cholesky is abstracted by its contract (two similarity identities of EXPM / GRAMQ under a diagonal change of basis are axioms); its doubling step is verified; the Pade / Legendre initialisers are checked against table-independent order conditions on the polynomials extracted from the real init (1x1 symbolic drift). NOT proved: the doubling *loop* of exp_gram_cholesky (symbolic trip count) and the accuracy 'to working precision' of the truncated approximations (undecidable in real arithmetic)",
     design_ref="DESIGN.md section 4 (C09)",
 )
 CHECKS["C10"] = dict(
@@ -125,8 +125,14 @@ CHECKS["C20"] = dict(
     design_ref="DESIGN.md section 4 (C20), 8.4",
 )
 
+CHECKS["C14"] = dict(
+    category="proof",
+    text="(i) Each factorisation's step is exactly the textbook EKF with its documented structure (C02 step contracts for the configurations C14 names: TS0 and TS1, uncalibrated / MLE / dynamic); (ii) machine-checked lemmas about the specification: the EKF update commutes with the embeddings isotropic -> dense (P (x) I, h (x) I: zeroth order, or Jacobian a multiple of the identity) and block-diagonal -> dense (decoupled linearisations), MLE terms agree (dense = isotropic = mean over dimensions of block-diagonal), and the gain is unique for a non-singular innovation covariance.",
+    note="the lemmas are about specification code in /verif (contracts/lemmas.py), not about repository code; the link from 'steps agree' to 'whole solves agree' is induction over fold(step) (fixed grids) and, for adaptive dense/isotropic runs, equality of the error quantities (C07) through the C06 invariants -- that composition is stated, not machine-checked; shapes n<=3, d<=3 enumerated",
+    design_ref="DESIGN.md section 4 (C14), 8.4",
+)
+
 NOT_APPLICABLE = {
-    "C14": "no dedicated check yet: each factorisation's step is proved equal to the textbook EKF with its documented structure (C02), so agreement is a corollary at the specification level (embedding lemmas), which is not machine-checked in this round; the seeded C14 change is caught by the C02 check",
     "C01": "global accuracy / convergence order against the true ODE solution is not a postcondition of one call nor a data-structure invariant; no contract over the code implies it (DESIGN section 4, C01)",
 }
 
